@@ -451,6 +451,43 @@ func listenerWide(rep *kit.Report) {
 			check(cfg, hdr)
 		}
 	}
+	// two timeouts directives on one site, in the one-value form and in the block form, in both orders: each line takes effect
+	// (a later value for a kind replaces an earlier one), or the site is refused - a line is never dropped silently
+	type tdir struct {
+		text string
+		set  map[string]string
+	}
+	forms := []tdir{
+		{"timeouts 10s", map[string]string{"read": "10s", "header": "10s", "write": "10s", "idle": "10s"}},
+		{"timeouts 20s", map[string]string{"read": "20s", "header": "20s", "write": "20s", "idle": "20s"}},
+		{"timeouts {\n\t\tidle 2m\n\t}", map[string]string{"idle": "2m"}},
+		{"timeouts {\n\t\tread 7s\n\t\twrite none\n\t}", map[string]string{"read": "7s", "write": "none"}},
+	}
+	for _, d1 := range forms {
+		for _, d2 := range forms {
+			cf := "a.test:8080 {\n\t" + d1.text + "\n\t" + d2.text + "\n}\n"
+			l, err := kit.Load(cf, "/nonexistent/Casketfile")
+			rep.Eval(1)
+			if err != nil {
+				rep.Class("two-timeouts-directives/refused")
+				continue
+			}
+			srv := l.Server("")
+			got := []time.Duration{srv.Server.ReadTimeout, srv.Server.ReadHeaderTimeout, srv.Server.WriteTimeout, srv.Server.IdleTimeout}
+			defs := []time.Duration{0, 0, 0, 5 * time.Minute}
+			for k, kind := range kinds {
+				val := d1.set[kind]
+				if v, ok := d2.set[kind]; ok {
+					val = v
+				}
+				if want := refTimeout([]string{val}, defs[k]); got[k] != want {
+					rep.Violation("C17/listener/"+kind+"-timeout/line-of-a-second-timeouts-directive-dropped", fmt.Sprintf("%s timeout after `%s` then `%s`: listener got %v, want %v", kind, d1.text, d2.text, got[k], want), lwCase{cf, kind, want.String(), got[k].String()})
+				}
+			}
+			l.Close()
+			rep.Class("two-timeouts-directives/applied")
+		}
+	}
 	rep.Sample(map[string]interface{}{"listener_group": "a.test:8080 { timeouts { read 10s } }  b.test:8080 { timeouts { read none; header 5s } }", "checked": "effective http.Server fields vs strictest configured value"})
 }
 
